@@ -1,5 +1,6 @@
 """Registry fragment of the `splitter` family (assignment half of C16): spec/Splitter.tla,
-harness/cmd/splitter, checks/c16_assign.py (+ checks/c16.py calling both halves),
+harness/cmd/splitter, checks/c16_assign.py, spec/KinesisReader.tla, harness/cmd/kreader, checks/c16_reader.py
+(+ checks/c16.py calling all halves),
 findings/known_splitter.jsonl.  The cut half of C16 belongs to the `pipeline` family
 (spec/Pipeline.tla, harness/cmd/pipeline, checks/c16_cut.py); the CHECKS entry below
 describes BOTH halves because a property has one entry - the integrator keeps one."""
@@ -12,14 +13,25 @@ ENGINES = [
                         "cursors captured at each runner's barrier and the splitter state at completion); fixed-split variants for the embedded "
                         "(round robin) and httpapi (single split) splitters; TLC exhaustive + simulated behaviours and exported counterexample "
                         "schedules replayed on the real splitters (harness/cmd/splitter)"),
+    dict(name="KinesisReader", path="spec/KinesisReader.tla", serves_properties=["C16"],
+         kind_free_text="TLA+ spec of the Kinesis source reader together with the splitter and the job / runner loop between them: stream with "
+                        "shard lineage and records, per-runner FIFO of AssignSplits messages, SourceReader (assignedShards, shardIndex, cursor "
+                        "and iterator per shard; one action per ReadEvents call = one GetRecords page of 1..MaxPage records of one shard, "
+                        "iterator expiry, end of a closed shard -> NotifySplitsFinished), job checkpoint = reader cursors at each runner's "
+                        "barrier + splitter state at completion, kill/restart into any runner count; ghost variables for the records emitted "
+                        "in the current timeline (rewound to the cut by a restore); invariants ResumeExact, ChildAfterParent, OneReader, "
+                        "PerShardOrder; TLC exhaustive + simulated behaviours + exported counterexample schedules replayed on real "
+                        "kinesis.SourceReaders and the real SourceSplitter against kinesisfake (harness/cmd/kreader)"),
 ]
 CHECKS = {
     "C16": dict(
         engine="Pipeline",
-        technique="TLA+/TLC model checking of Pipeline.tla (cut half) and Splitter.tla (assignment half); TLC-generated behaviours replayed on the "
+        technique="TLA+/TLC model checking of Pipeline.tla (cut half), Splitter.tla (assignment half) and KinesisReader.tla (reader half); "
+                  "TLC-generated behaviours replayed on the "
                   "real SourceRunner (barrier cut of source positions via spec/Pipeline.tla replayed on the real SourceRunner) and on the real "
-                  "kinesis SourceSplitter/SplitTracker against the repo's kinesisfake, the real embedded and httpapi splitters and readers, and "
-                  "the real snapshots.Store",
+                  "kinesis SourceSplitter/SplitTracker against the repo's kinesisfake, the real embedded and httpapi splitters and readers, "
+                  "real kinesis.SourceReaders reading identifiable records from kinesisfake across checkpoint / kill / restore, and "
+                  "the real snapshots.Store; one cut per restart: spec/Restart.tla (start() stepped, publication in two steps) replayed on the real jobs.Job with fake nodes, the snapshot write and every step of start() gated (checks/restartlib.py)",
         text="Cut half: barrier cut of source positions via spec/Pipeline.tla replayed on the real SourceRunner - TLC explores BarrierCut (cursor "
              "snapshot + ack + barrier placeholder in one loop iteration) in every schedule, simulated schedules are forced onto a real "
              "SourceRunner, the reported SplitStates are compared with the records ahead of the barrier in every operator stream and a fresh "
@@ -37,12 +49,24 @@ CHECKS = {
              "never assigned after three further rounds). The embedded and httpapi splitters are replayed with their real readers as "
              "runners (records read after a restore must continue at the checkpointed position, for every runner count). Counterexample "
              "schedules of the repaired defects (Pre_LastRegress, Pre_ForgetWithheld), exported from exhaustive runs, are replayed on the "
-             "repaired code.",
+             "repaired code. "
+             "Reader half (Kinesis): TLC exhaustively explores KinesisReader.tla - records put, split/merge, discovery rounds, delivery of "
+             "assignment messages to the runner loops, ReadEvents pages of 1..2 records, iterator expiry, barriers, completion and "
+             "kill/restart into 1-2 runners - and proves that the mechanism resumes every shard exactly at the cut (ResumeExact: no record "
+             "repeated, skipped or left; ChildAfterParent; OneReader). Simulated behaviours are replayed on real kinesis.SourceReaders (one "
+             "per runner) + the real SourceSplitter + kinesisfake + the real snapshots.Store: every record carries its identity as payload "
+             "and every record returned by ReadEvents is judged against harness-kept ground truth (repeat / gap relative to the cut, child "
+             "before its parents' records, two readers, records never read after three more rounds); counterexample schedules of the "
+             "repaired defect Pre_CursorAtReaderOnly and of the defective variants Bug_StaleSplitterCursor / Bug_AtSeq, exported from "
+             "exhaustive runs, are replayed on the code.",
         note="Assignment half bounds: exhaustive <= 5 shards x 1-3 runners (6 shards x 1-2 runners in the thorough tier) with cursors abstracted "
              "to captured / not captured, <= 4 shards with cursors 0..1; replays up to 9 shards, cursors 0..2, <= 6 restarts. Kafka's splitter "
              "needs a broker and is not covered. The job's part (AssignSplits hook delivery, NotifySplitsFinished forwarding, ack order) is "
-             "played by the harness as jobs/job.go does it; kinesis runners are harness-owned (cursors are opaque strings serialised by the real "
-             "kinesis.SourceReader.Checkpoint), so reading records from Kinesis after a restore is not part of this half; the splitsDidFinish "
+             "played by the harness as jobs/job.go does it; in the assignment half kinesis runners are harness-owned (cursors are opaque strings "
+             "serialised by the real kinesis.SourceReader.Checkpoint); reading records from Kinesis after a restore is decided by the reader "
+             "half (exhaustive <= 3 shards x 1-2 runners, <= 2 records per shard, pages of 1-2, <= 3 starts / 2 checkpoints; replays up to 6 "
+             "shards, 4 records per shard, pages of 1-3, 5 restarts; NotifySplitsFinished is forwarded before ReadEvents returns - the "
+             "job's hand-off to its task queue is not interleaved; kinesisfake's sequence numbers are positions); the splitsDidFinish "
              "wake-up is folded into the next discovery round; 'never assigned' is concluded after three further discovery rounds; shard "
              "trimming (retention) and ListShards pagination are not modelled. Known finding Dev_StateAtCompletion (DESIGN 7 #27) is listed "
              "in findings/known_splitter.jsonl."),
